@@ -16,7 +16,7 @@ PROP_SCENARIOS = {
     "C01": ["status", "container", "pool"], "C02": ["status", "twins", "pool", "executor"], "C03": ["pool", "twins", "executor"],
     "C04": ["pool", "killer", "container", "twins"], "C05": ["container", "pool"], "C09": ["executor", "pool", "twins"],
     "C10": ["twins", "pool", "executor"], "C11": ["killer", "pool"],
-    "C16": ["sim-priority-pool"], "C17": ["sim-naive"], "C18": ["sim-overbook"], "C12": ["sim-priority", "sim-priority-pool"],
+    "C16": ["sim-priority-pool"], "C17": ["sim-naive"], "C18": ["sim-overbook"], "C12": ["sim-priority", "sim-priority-burst", "sim-priority-pool"],
     "C08": ["sim"],
 }
 
